@@ -8,7 +8,8 @@
    last so that the others are still counted. *)
 From Coq Require Import String Ascii.
 From Coq Require Import NArith ZArith List Bool.
-From PyIpmi Require Import Lib.Res Lib.Bytes Lib.Prog Model.Cli Gen.CliTable Proofs.CliProofs.
+From PyIpmi Require Model.ApiSem.
+From PyIpmi Require Import Lib.Res Lib.Bytes Lib.Prog Model.Cli Model.CliApi Gen.CliTable Proofs.CliProofs Proofs.CliApiProofs.
 Import ListNotations.
 Open Scope string_scope.
 Open Scope list_scope.
@@ -166,6 +167,32 @@ Theorem C20_power_codes : forall sub code, In (sub, code) power_spec ->
 Proof. exact (power_sound commands power_table chassis_control_req
                (eq_refl true <: power_ok_b commands power_table chassis_control_req = true)). Qed.
 Print Assumptions C20_power_codes.
+
+(* SAME REQUEST AS THE API CALL, over two regenerated tables: for every command of
+   [cli_api_spec] (Proofs/CliApiProofs.v: the API call the property text means, with named
+   arguments), every value vector of its numeric command-line arguments (full field ranges),
+   written in decimal or - where the tool reads base 0 - hexadecimal: the request computed from
+   the CLI table (call_specs: the ONE operation the handler calls, its arguments positionally
+   bound through the parameter list of the regenerated operation content, run by ApiSem over the
+   regenerated layouts) IS the request of the corresponding API call with those named arguments.
+   Every entry of the command table is in that list or in [oracle_only] (decided by the oracle of
+   the check), and every listed command exists. *)
+Theorem C20_same_request :
+  (forall e, In e cli_api_spec -> forall ns, In ns (arg_domain e) -> forall hex : bool,
+     exists r, cli_request call_specs (ca_cmd e) (render_args e hex ns) = Some r /\
+               first_request (ca_method e) (named_args e ns) = Some r) /\
+  (forall c, In c commands -> In (c_name c) (map ca_cmd cli_api_spec) \/ In (c_name c) oracle_only) /\
+  (forall e, In e cli_api_spec -> In (ca_cmd e) (map c_name commands)).
+Proof. exact (same_request_sound commands call_specs (eq_refl true <: same_request_b commands call_specs = true)). Qed.
+Print Assumptions C20_same_request.
+
+(* ... and for the chassis power sub-commands that common request is Chassis Control carrying
+   the IPMI control code as its only data byte (with C20_same_request this subsumes
+   C20_power_codes, now through the regenerated operation content and layouts) *)
+Theorem C20_power_bytes : forall sub code, In (sub, code) power_spec ->
+  first_request "chassis_control" [("option", ApiSem.PInt (Z.of_N code))] = Some (mkReq 0 2 0 [code]).
+Proof. exact (power_bytes_sound (eq_refl true <: power_bytes_b = true)). Qed.
+Print Assumptions C20_power_bytes.
 
 (* non-vacuity: a rendered option list satisfies the hypotheses of C20_options_parse, and
    the whole of main's set-up computes the expected plan on it *)
